@@ -391,6 +391,16 @@ pub fn run(ctx: &mut Ctx) {
             &mut jobs,
         );
     }
+    // ---- SAFT-VR Mie with a spherical (m = 1) and chain components: the chain-free shortcut must apply per component
+    {
+        let p = zoo::vrmie(&["methane", "ethane", "propane"]);
+        let (recs, _) = p.records();
+        family_jobs(
+            Family::<SaftVRMieParameters> { id: "saftvrmie:methane+ethane+propane".into(), recs: recs.to_vec(), bin: None, build: Arc::new(|p| ResidualModel::SaftVRMie(SaftVRMie::new(Arc::new(p)))), build_opts: None, x: arr1(&[0.3, 0.5, 0.2]), tref: 300.0, zero_pad: true },
+            tier,
+            &mut jobs,
+        );
+    }
     // ---- SAFT-VR Mie
     {
         let p = zoo::vrmie(&["ethane", "propane", "methanol"]);
